@@ -23,18 +23,20 @@ func RunFree(s Sched, variant string, still time.Duration) Trace {
 	tr := Trace{ID: s.ID, Cfg: cfg, Epilogue: "free-" + variant, Origin: s.Origin + "+free", Wins: []Window{}}
 	c := &ctl{cfg: cfg, outs: map[string]func() (int, bool){}, outLen: map[string]func() int{},
 		recvPend: map[string]bool{}, seen: map[string]bool{}, gates: map[int]chan struct{}{}, callArg: map[int]int{},
-		failSet: map[int]bool{}, predSet: map[int]bool{}, start: time.Now()}
+		failSet: map[int]bool{}, predSet: map[int]bool{}, start: time.Now(), free: true}
 	c.ctx, c.cancel = context.WithCancel(context.Background())
 	shared = nil
 	c.build()
 	tr.Outs = c.outName
+	restless := false // things kept happening until the deadline (or more than is judged): no window is taken to be at rest
 	take := func() []Ev {
 		c.mu.Lock()
 		defer c.mu.Unlock()
 		d := append([]Ev{}, c.done...)
 		c.done = c.done[:0]
-		if len(d) > 20000 {
-			d = d[:20000] // a stage that never stops producing: the windows are marked busy, a prefix of what happened is judged
+		if len(d) > 8000 {
+			d = d[:8000] // a stage that never stops producing: a prefix of what happened is judged, nothing is taken to be at rest
+			restless = true
 		}
 		return d
 	}
@@ -51,7 +53,6 @@ func RunFree(s Sched, variant string, still time.Duration) Trace {
 		return n
 	}
 	// waits until every output is closed (true) or nothing has happened for `quiet` (false)
-	restless := false // things kept happening until the deadline: the last window is not known to be at rest either
 	rest := func(quiet time.Duration, base int) bool {
 		last, at, t0 := nev(), time.Now(), time.Now()
 		for {
@@ -170,7 +171,8 @@ func RunFree(s Sched, variant string, still time.Duration) Trace {
 			c.cancel()
 			runtime.GOMAXPROCS(prev)
 			rest(still, 0)
-			tr.Wins = append(tr.Wins, Window{Cmd: Cmd{C: "burst", Sub: []Cmd{{C: "cancel"}}}, Done: take(), Q: c.snapshot(), Busy: restless})
+			last := take()
+			tr.Wins = append(tr.Wins, Window{Cmd: Cmd{C: "burst", Sub: []Cmd{{C: "cancel"}}}, Done: last, Q: c.snapshot(), Busy: restless})
 			return tr
 		} else {
 			rest(300*time.Millisecond, 0)
@@ -207,7 +209,8 @@ func RunFree(s Sched, variant string, still time.Duration) Trace {
 			}
 		}
 		rest(still, nclosed)
-		tr.Wins = append(tr.Wins, Window{Cmd: Cmd{C: "burst", Sub: cs}, Done: take(), Q: c.snapshot(), Busy: restless})
+		last := take()
+		tr.Wins = append(tr.Wins, Window{Cmd: Cmd{C: "burst", Sub: cs}, Done: last, Q: c.snapshot(), Busy: restless})
 	}
 	return tr
 }
